@@ -13,7 +13,9 @@ import (
 	"net"
 	"sort"
 	"strconv"
+	"syscall"
 	"time"
+	"unsafe"
 
 	"verif/sim/simrt"
 )
@@ -355,7 +357,7 @@ func ListenUDP(network string, laddr *net.UDPAddr) (*UDPConn, error) {
 	op := &listenUDPOp{n: n, laddr: l}
 	simrt.Trap(op, true)
 	if op.err != nil {
-		return nil, op.err
+		return nil, cloneErr(op.err)
 	}
 	return &UDPConn{s: op.s}, nil
 }
@@ -370,6 +372,30 @@ func cloneIP(ip net.IP) net.IP {
 		out[i] = ip[i]
 	}
 	return out
+}
+
+// cloneErr rebuilds, on the calling goroutine, an error the kernel created:
+// the program must not observe memory written by the kernel goroutine (the
+// race detector would see an unsynchronised pair that real sockets do not have).
+//
+//go:norace
+func cloneErr(err error) error {
+	switch e := err.(type) {
+	case nil:
+		return nil
+	case *net.OpError:
+		return &net.OpError{Op: e.Op, Net: e.Net, Source: e.Source, Addr: e.Addr, Err: cloneErr(e.Err)}
+	case *net.DNSError:
+		return &net.DNSError{Err: e.Err, Name: e.Name, IsNotFound: e.IsNotFound}
+	case *net.AddrError:
+		return &net.AddrError{Err: e.Err, Addr: e.Addr}
+	case syscall.Errno:
+		return e
+	}
+	if err == io.EOF || err == net.ErrClosed {
+		return err
+	}
+	return errors.New(err.Error())
 }
 
 //go:norace
@@ -425,9 +451,12 @@ func (c *UDPConn) ReadFromUDP(b []byte) (int, *net.UDPAddr, error) {
 	op := &readUDPOp{s: c.s, max: len(b)}
 	simrt.Trap(op, true)
 	if op.err != nil {
-		return 0, nil, op.err
+		return 0, nil, cloneErr(op.err)
 	}
 	n := copyInto(b, op.data)
+	if n > 0 {
+		simrt.RaceWriteRange(unsafe.Pointer(&b[0]), n)
+	}
 	return n, &net.UDPAddr{IP: cloneIP(op.from.IP), Port: op.from.Port}, nil
 }
 
@@ -480,10 +509,13 @@ func (c *UDPConn) WriteToUDP(b []byte, addr *net.UDPAddr) (int, error) {
 	if g != nil {
 		name = g.Name
 	}
+	if len(b) > 0 {
+		simrt.RaceReadRange(unsafe.Pointer(&b[0]), len(b))
+	}
 	op := &writeUDPOp{s: c.s, dst: &net.UDPAddr{IP: cloneIP(addr.IP), Port: addr.Port}, data: cloneBytes(b), g: name}
 	simrt.Trap(op, true)
 	if op.err != nil {
-		return 0, op.err
+		return 0, cloneErr(op.err)
 	}
 	return len(b), nil
 }
@@ -516,7 +548,7 @@ func (o *closeUDPOp) OpName() string { return "close-udp" }
 func (c *UDPConn) Close() error {
 	op := &closeUDPOp{s: c.s}
 	simrt.Trap(op, true)
-	return op.err
+	return cloneErr(op.err)
 }
 
 //go:norace
@@ -611,7 +643,7 @@ func LookupIP(host string) ([]net.IP, error) {
 	op := &lookupOp{n: n, host: host}
 	simrt.Trap(op, true)
 	if op.err != nil {
-		return nil, op.err
+		return nil, cloneErr(op.err)
 	}
 	out := make([]net.IP, len(op.ips))
 	for i := 0; i < len(op.ips); i++ {
